@@ -49,6 +49,12 @@ def c10_1(ctx):
             ctx.fail(fn, w, 'the running instant is not advanced inside the loop: it never terminates')
             continue
         step0 = N(subst_names(step, {'t': ast.Name('t0', ast.Load())}))
+        # what a step IS: the timedelta added, or the tenor applied to the running date by dt_bump - a step measured once at t0 and re-added
+        # (t + (dt_bump(t0, bump) - t0)) drifts as soon as a month / quarter / year / business-day part is present
+        if N(step) not in (NS('t + bump'), NS('dt_bump(t, bump)'), NS('bump + t')):
+            ctx.fail(fn, w, 'the loop advances with `t = %s`: the running instant must be advanced by the bump itself (t + bump for a timedelta, dt_bump(t, bump) for a tenor, recomputed from the running date)' % U(step),
+                     witness="drange(dt(2003,6,20), dt(2003,1,1), '-1m') must stay on the 20th of each month")
+            continue
         anc = par
         while anc is not None and not isinstance(anc, ast.FunctionDef):
             if isinstance(anc, ast.If):
